@@ -28,7 +28,7 @@ ASSUMPTIONS = [
     'S1 node formatting, S3 composer; marks: every node gets its own '
     'concrete line (replay: the marks of the real parser)',
     'strong claim on hierarchy-free models (plain, coll, when, styled, '
-    'picky, top_dict, uni, req4, job -- the last with Unions of a scalar '
+    'picky, top_dict, uni, req4, job, labels -- job with Unions of a scalar '
     'and a collection of that scalar, whose members fail with the same '
     'words at different places): one corruption of a valid base document -- '
     'wrong scalar type at any scalar value, misspelt key, dropped required '
@@ -43,7 +43,7 @@ ASSUMPTIONS = [
 ]
 
 STRONG = ['plain', 'coll', 'when', 'styled', 'picky', 'top_dict', 'uni',
-          'req4', 'job']
+          'req4', 'job', 'labels']
 WEAK = ['shapes']
 _CASES = [(MODEL_IDX[n], 0) for n in STRONG + WEAK]
 _CLASS_KEYS = {}
@@ -60,7 +60,7 @@ for _mi, _bi in _CASES:
                 rq.add(n)
     _CLASS_KEYS[_mi], _REQUIRED[_mi] = ks, rq
 
-K_TYPE, K_MISSPELL, K_DROP, K_ADD, K_ENUM = range(5)
+K_TYPE, K_MISSPELL, K_DROP, K_ADD, K_ENUM, K_ENUM_BOOL = range(6)
 _CITE = re.compile(r'line (\d+), column (\d+)')
 
 
@@ -142,6 +142,13 @@ def _corrupt(mi, bi, site, kind):
             return None
         node.value = 'purple'
         path = _path(b, site)
+    elif kind == K_ENUM_BOOL:
+        # an unknown member spelt like a boolean: the parser tags it !!bool
+        if name != 'styled' or not isinstance(node, yaml.ScalarNode) \
+                or node.value not in ('red', 'green') or slot[0] == 'key':
+            return None
+        node.tag, node.value = 'tag:yaml.org,2002:bool', 'false'
+        path = _path(b, site)
     else:
         return None
     docs.layout(b.root)
@@ -211,7 +218,7 @@ def _run(case, site, kind):
 
 def corrupted(case: int, site: int, kind: int) -> bool:
     """
-    pre: 0 <= case < 10 and 0 <= site < 28 and 0 <= kind < 5
+    pre: 0 <= case < 11 and 0 <= site < 28 and 0 <= kind < 6
     post: __return__
     """
     s = slice_no(-1)
@@ -223,7 +230,7 @@ def corrupted(case: int, site: int, kind: int) -> bool:
 
 def corrupted_reach(case: int, site: int, kind: int) -> bool:
     """
-    pre: 0 <= case < 10 and 0 <= site < 28 and 0 <= kind < 5
+    pre: 0 <= case < 11 and 0 <= site < 28 and 0 <= kind < 6
     post: __return__
     """
     r = _run(case, site, kind)
@@ -304,12 +311,12 @@ CONDITIONS = [
      'bound': 'the empty document for every document type of the model '
               'table: a RecognitionError cites a position, inside the '
               'document'},
-    {'fn': 'corrupted', 'slices': list(range(10)), 'quick': 110,
+    {'fn': 'corrupted', 'slices': list(range(11)), 'quick': 110,
      'thorough': 300,
-     'bound': 'one slice per model (9 hierarchy-free, 1 hierarchy): every '
-              'node of the valid base document x 5 corruption kinds (wrong '
+     'bound': 'one slice per model (10 hierarchy-free, 1 hierarchy): every '
+              'node of the valid base document x 6 corruption kinds (wrong '
               'scalar type, misspelt key, dropped required key, added key, '
-              'unknown enum member)'},
+              'unknown enum member, unknown enum member spelt like a boolean)'},
     {'fn': 'corrupted_reach', 'quick': 60, 'thorough': 60,
      'expect': 'REFUTED',
      'bound': 'reachability twin: a dropped required key is reported at an '
